@@ -27,6 +27,7 @@ inductive DenT (ρ : NValu) : STerm → Term → Prop where
   | val (c) : DenT ρ (.val c) (.val c)
   | nil : DenT ρ .nil .nil
   | cons {h t vh vt} : DenT ρ h vh → DenT ρ t vt → DenT ρ (.cons h t) (.cons vh vt)
+  | comp {g a va} : DenT ρ a va → DenT ρ (.comp g a) (.comp g va)
 
 def SatE (γ : Valu) : EGoal → Prop
   | .eq a b => apply γ a = apply γ b
@@ -92,6 +93,7 @@ theorem denT_congr (ρ ρ' : NValu) (t : STerm) (v : Term) (h : ∀ x, t.mention
   | nil => exact .nil
   | cons _ _ ih1 ih2 =>
     exact .cons (ih1 (fun x hx => h x (by simp [mentions, hx]))) (ih2 (fun x hx => h x (by simp [mentions, hx])))
+  | comp _ ih => exact .comp (ih (fun x hx => h x (by simp [mentions, hx])))
 
 /-- terms: `t` can denote `v` under `γ0 ∘ env` iff some choice of the ids allocated for its `_`s makes the
     elaborated term evaluate to `v` -/
@@ -152,6 +154,21 @@ theorem elabT_sem (env : Env) (γ0 : Valu) : ∀ (t : STerm) (n : Nat) (v : Term
       have : (fun x => γ0 (env x)) = (fun x => γ (env x)) := funext fun x => (hg _ (henv x)).symm
       rw [this]
       exact (elabT_sem env γ b n1 _ henv1).2 ⟨γ, fun _ _ => rfl, by rw [hb]⟩
+  | .comp g a, n, v, henv => by
+    simp only [elabT]
+    generalize ha : elabT env a n = ra
+    obtain ⟨a', n1⟩ := ra
+    constructor
+    · intro h
+      cases h with
+      | comp h1 =>
+        rename_i va
+        obtain ⟨γa, ga, ea⟩ := (elabT_sem env γ0 a n va henv).1 h1
+        rw [ha] at ea
+        exact ⟨γa, ga, by simp only [apply, ea]⟩
+    · rintro ⟨γ, hg, rfl⟩
+      simp only [apply]
+      exact .comp ((elabT_sem env γ0 a n _ henv).2 ⟨γ, hg, by rw [ha]⟩)
 
 theorem nodup_eraseDups : ∀ (k : Nat) (l : List Name), l.length ≤ k → l.eraseDups.Nodup
   | _, [], _ => by simp
@@ -170,6 +187,7 @@ theorem names_nodup : ∀ t : STerm, t.names.Nodup
   | .val _ => by simp [names]
   | .nil => by simp [names]
   | .cons a b => by simp only [names]; exact nodup_eraseDups _ _ (Nat.le_refl _)
+  | .comp g a => by simp only [names]; exact names_nodup a
 
 /-- distinct names get consecutive ids -/
 theorem bindAll_idx (env : Env) : ∀ (ns : List Name) (n : Nat), ns.Nodup → ∀ (i : Nat) (h : i < ns.length),
